@@ -209,7 +209,7 @@ func main() {
 			if th {
 				return 2500
 			}
-			return 150
+			return 110
 		},
 		Fixed: fixed(),
 	})
